@@ -1,41 +1,6 @@
-import Generated.Facts
-/-! # Source facts about the daemon wiring (C05, C10, C14, C18) -/
-namespace TR.FactsWiring
-open Facts
-
-/-- C05: the throttle wraps the motion recorder iff `thermal-throttler.activate`, its minimum clip is
-min-secs + preview-secs, and the continuous recorder is a plain (unthrottled) file recorder -/
-theorem throttle_wiring : throttleGuardExpr = "conf.Throttler.Activate" ∧
-    throttleMinSecsExpr = "conf.Recorder.MinSecs + conf.Recorder.PreviewSecs" ∧
-    constantRecorderCtor = "NewCPTVFileRecorder" := by decide
-
-/-- C14: both daemons use the same marker, the recorder probes exactly as many bytes as the marker has,
-reads frames with io.ReadFull (probe + rest), and reads every header key leptond writes -/
-theorem marker_agreement : recorderClear = leptondClear ∧ recorderClear.utf8ByteSize = probeLen ∧
-    recorderReadFullCalls = 2 ∧ recorderMarkerTest = "message == clearBuffer" ∧
-    leptondMarkerSend = "conn.Write([]byte(clearBuffer))" := by decide
-
-theorem header_keys_agree : leptondHeaderKeys = recorderHeaderKeys ∧
-    headerBlankLineTest = "strings.Trim(line, \" \") == \"\\n\"" := by decide
-
-/-- C14: the camera daemon describes the camera with the camera's own values (resolution, frame size, fps,
-brand from the lepton3 package; model, 64-bit serial and firmware as read from the camera) -/
-theorem leptond_header_values : leptondHeaderValues =
-    "headers.Brand:lepton3.Brand;headers.FPS:camera.FPS();headers.Firmware:firmware;headers.FrameSize:lepton3.BytesPerFrame;headers.Model:model;headers.Serial:serial;headers.XResolution:camera.ResX();headers.YResolution:camera.ResY()" :=
-  rfl
-
-/-- C13: Lepton cameras are parsed by the lepton3 library's parser, Bosons by `convertRawBosonFrame`
-(the two parsers `TR.Parse` models) -/
-theorem frame_parser_selection : frameParserMap =
-    "lepton3.Model,lepton3.Model35=>return lepton3.ParseRawFrame;\"boson\"=>return convertRawBosonFrame" := rfl
-
-/-- C18: 256 buffers circulate between two channels of that capacity; the reader takes a spent buffer,
-fills it, hands it to the writer, and closes the queue on a read error; the writer writes a frame
-before returning its buffer and closes the file when the queue is closed -/
-theorem writer_handoff : inFlight = 256 ∧
-    writerChannels = "make(chan []byte, inFlight);make(chan []byte, inFlight)" ∧
-    writerReaderOrder = "send spentFrames;recv spentFrames;io.ReadFull frame;close writeFrames;send writeFrames" ∧
-    writerWriterOrder = "case <-changeFile;builder.Close;case frame, ok := <-inFrames;builder.Close;writeFrame;send outFrames" := by
-  decide
-
-end TR.FactsWiring
+import Props.FactsThrottleWiring
+import Props.FactsMarker
+import Props.FactsParserSel
+import Props.FactsWriterHandoff
+/-! # Source facts about the daemon wiring (C05, C06, C11, C13, C14, C18): the theorems live in the imported modules
+(namespace `TR.FactsWiring`), one module per concern -/
